@@ -1,19 +1,22 @@
 ------------------------------ MODULE Trace_Views ------------------------------
 EXTENDS Views, TLC, Json, IOUtils
 Rec == ndJsonDeserialize(IOEnv.TRACE)
-VARIABLE l
-Init == l = 1
+VARIABLES l, dead          \* dead: the view of the current run (file, view command) has ended at a payload it could not cut
+Init == l = 1 /\ dead = FALSE
 \* drop the fields a row of that kind does not print
 Norm(row) == IF row.k = "RDH" THEN row
              ELSE IF row.k = "TDH" THEN [k |-> row.k, off |-> row.off, w |-> row.w, a |-> row.a, orbit |-> row.orbit, bc |-> row.bc]
              ELSE [k |-> row.k, off |-> row.off, w |-> row.w, a |-> row.a]
 Next == /\ l <= Len(Rec) /\ Rec[l].e = "Pkt"
         /\ LET ev == Rec[l]
-               exp == IF ev.selected THEN PacketRows(ev.off, ev.rdh, ev.payload, ev.withData) ELSE << >>      \* a packet the filter does not select has no rows
+               same == l > 1 /\ Rec[l - 1].file = ev.file /\ Rec[l - 1].view = ev.view
+               d == same /\ dead
+               exp == IF ev.selected /\ ~d THEN PacketRows(ev.off, ev.rdh, ev.payload, ev.withData) ELSE << >>      \* a packet the filter does not select has no rows; nor has any packet after the end of the view
                expn == [i \in 1..Len(exp) |-> Norm(exp[i])]
-           IN IF expn = ev.rows THEN TRUE ELSE PrintT("REJECT " \o ToJson([l |-> l, tag |-> "rows", expected |-> expn, observed |-> ev.rows]))
+           IN /\ IF expn = ev.rows THEN TRUE ELSE PrintT("REJECT " \o ToJson([l |-> l, tag |-> "rows", expected |-> expn, observed |-> ev.rows]))
+              /\ dead' = (d \/ (ev.selected /\ ViewEnds(ev.payload)))
         /\ l' = l + 1
-Spec == Init /\ [][Next]_l
+Spec == Init /\ [][Next]_<< l, dead >>
 Accepted == IF TLCGet("stats").diameter - 1 = Len(Rec) THEN TRUE
             ELSE Print(<<"TRACE NOT ACCEPTED: matched", TLCGet("stats").diameter - 1, "of", Len(Rec)>>, FALSE)
 ================================================================================
